@@ -235,7 +235,10 @@ SPEC_EPS = Fraction(1, 100000)  # documented solver precision: "within the gap" 
 def eps_from_source():
     """the tolerance the current code uses in its stop test (for the model), as extracted"""
     import extract_constants
-    return extract_constants.extract()["STOP_EPS"]
+    out, failed = extract_constants.extract()
+    if "STOP_EPS" in out:
+        return out["STOP_EPS"]
+    raise lib.ToolTrouble(f"stop tolerance not extractable: {failed}")
 
 
 def case_json(shape):
